@@ -19,6 +19,9 @@ package ctxcheck
 //       `sibblock` feeds a retained pair the blocks of an independent sibling chain (chain.Branch) — different blocks
 //       than the live chain's, deposits on both branches in different orders (the clones share the pubkey cache),
 //       slashings/exits on one side only, over epoch boundaries and fork upgrades;
+//       `clone` splits a retained pair into two (CopyState + EpochsContext.Clone), `xdeposit` applies the exported
+//       phase0.ProcessDeposit(…, ignoreSignatureAndProof=true) with a NEW validator to a retained pair: the deposit-tree
+//       scenario (prefix deposit, split into 2–3 siblings, deposits of different amounts on each, recheck of ALL);
 //       `recheck` re-dumps a retained pair (root, fresh=…, dump) at later moments: a clone must keep matching ITS state
 //       whatever the other clones do.
 
@@ -30,8 +33,11 @@ import (
 	"strconv"
 	"strings"
 
+	kbls "github.com/kilic/bls12-381"
+	blsu "github.com/protolambda/bls12-381-util"
 	"github.com/protolambda/zrnt/eth2/beacon"
 	"github.com/protolambda/zrnt/eth2/beacon/common"
+	"github.com/protolambda/zrnt/eth2/beacon/phase0"
 	"github.com/protolambda/ztyp/tree"
 
 	"verifharness/internal/chain"
@@ -62,6 +68,19 @@ func hasOp(st *chain.Step, prefix string) bool {
 		}
 	}
 	return false
+}
+
+// placeholderSig is the G2 generator (what KickStartState puts into its deposits): it deserialises, which is all
+// ProcessDeposit(…, ignoreSignatureAndProof=true) asks of a signature.
+func placeholderSig() common.BLSSignature {
+	return common.BLSSignature((*blsu.Signature)(kbls.NewG2().One()).Serialize())
+}
+
+// directDeposit applies the exported phase0.ProcessDeposit with ignoreSignatureAndProof=true (the path genesis and
+// KickStart use) to a (state, context) pair: a deposit of a NEW validator outside any block.
+func directDeposit(spec *common.Spec, epc *common.EpochsContext, st common.BeaconState, pk common.BLSPubkey, wc common.Root, amount common.Gwei) error {
+	dep := common.Deposit{Data: common.DepositData{Pubkey: pk, WithdrawalCredentials: wc, Amount: amount, Signature: placeholderSig()}}
+	return phase0.ProcessDeposit(spec, epc, st, &dep, true)
 }
 
 func gen(o hreg.Opts, w *bufio.Writer) error {
@@ -231,7 +250,7 @@ func gen(o hreg.Opts, w *bufio.Writer) error {
 			if r.brSteps >= int(2*spe)+2 {
 				r.br = nil // the pair stays retained and keeps being rechecked
 			}
-			if uint64(step.Slot)%spe == 0 || rng.Intn(4) == 0 {
+			if uint64(step.Slot)%spe == 0 || rng.Intn(8) == 0 || hasOp(step, "deposit_new") {
 				recheckAll("after-sibling-block")
 			}
 			return nil
@@ -278,7 +297,109 @@ func gen(o hreg.Opts, w *bufio.Writer) error {
 			recheckAll("after-sibling")
 			return nil
 		}
+		// The deposit TREE scenario (wave-6 mutant F-hx6-m4: in-place append to the shared EffectiveBalances array):
+		// a copy P of the live head gets one new-validator deposit (the common prefix: the context's per-validator
+		// slices now may have spare capacity), then P is split into 2 or 3 siblings (CopyState + EpochsContext.Clone),
+		// and every sibling gets a new-validator deposit of a DIFFERENT amount (different effective balance, different
+		// pubkey at the same registry index) — in the same slot, or after one sibling moved a slot. After EVERY deposit
+		// all contexts of the scenario and all retained ones are re-dumped against NewEpochsContext and Lean ctxOf.
+		// Deposits go through the exported phase0.ProcessDeposit(…, ignoreSignatureAndProof=true), as in genesis.
+		scenarioKey := 20000
+		depositTree := func(siblings int) error {
+			type node struct {
+				st   *beacon.StandardUpgradeableBeaconState
+				root common.Root
+			}
+			incr, max := spec.EFFECTIVE_BALANCE_INCREMENT, spec.MAX_EFFECTIVE_BALANCE
+			amounts := []common.Gwei{max, max/2 + incr, max - 3*incr, max + 5*incr}
+			var nodes []*node
+			recheckScenario := func() {
+				for _, n := range nodes {
+					fmt.Fprintf(w, "recheck x_r=%s\n", hx(n.root))
+					st.Add("op", "recheck")
+					st.Add("recheck-at", "after-tree-deposit")
+				}
+				recheckAll("after-tree-deposit")
+			}
+			deposit := func(n *node, amount common.Gwei) error {
+				pk := chain.Keys().Pubkey(scenarioKey)
+				wc := chain.Keys().BLSCredentials(scenarioKey)
+				scenarioKey++
+				epc, err := chain.FreshEpc(spec, n.st)
+				if err != nil {
+					return nil
+				}
+				if err := directDeposit(spec, epc, n.st, pk, wc, amount); err != nil {
+					return nil
+				}
+				f, err := flat.From(spec, n.st)
+				if err != nil {
+					return err
+				}
+				nr := rootOf(n.st)
+				fmt.Fprintf(w, "xdeposit x_r=%s x_pk=%s x_wc=%s x_amount=%d x_root=%s %s\n", hx(n.root), hex.EncodeToString(pk[:]),
+					hex.EncodeToString(wc[:]), uint64(amount), hx(nr), f.String())
+				n.root = nr
+				st.Add("op", "xdeposit")
+				recheckScenario()
+				return nil
+			}
+			// P: a retained copy of the live head
+			p0 := &node{st: chain.WrapState(c.State), root: root}
+			nodes = append(nodes, p0)
+			fmt.Fprintf(w, "retain x_pre=%s\n", hx(root))
+			st.Add("op", "retain")
+			st.Add("retain-at", "deposit-tree-prefix")
+			if err := deposit(p0, amounts[0]); err != nil { // the common prefix deposit
+				return err
+			}
+			for k := 0; k < siblings; k++ {
+				fmt.Fprintf(w, "clone x_r=%s\n", hx(p0.root))
+				st.Add("op", "clone")
+				nodes = append(nodes, &node{st: chain.WrapState(p0.st), root: p0.root})
+			}
+			for k, n := range nodes[1:] {
+				if k > 0 && rng.Intn(2) == 0 {
+					// this sibling deposits in a later slot (same epoch)
+					cur, err := n.st.Slot()
+					if err != nil {
+						return err
+					}
+					if (uint64(cur)+1)%spe != 0 {
+						if epc, err := chain.FreshEpc(spec, n.st); err == nil {
+							if common.ProcessSlots(context.Background(), spec, epc, n.st, cur+1) == nil {
+								f, err := flat.From(spec, n.st)
+								if err != nil {
+									return err
+								}
+								nr := rootOf(n.st)
+								fmt.Fprintf(w, "sibling x_r=%s x_to=%d x_root=%s %s\n", hx(n.root), uint64(cur)+1, hx(nr), f.String())
+								n.root = nr
+								st.Add("op", "sibling")
+								st.Add("point", "tree-sibling-deposits-in-later-slot")
+							}
+						}
+					}
+				}
+				if err := deposit(n, amounts[1+k%3]); err != nil {
+					return err
+				}
+			}
+			// and one more on the first sibling: it appends again next to what the others wrote
+			if err := deposit(nodes[1], amounts[3]); err != nil {
+				return err
+			}
+			st.Add("point", fmt.Sprintf("deposit-tree-%d-siblings", siblings))
+			return nil
+		}
+		treesDone := 0
 		for i := 0; i < p.slots; i++ {
+			if treesDone < 2 && i >= 3 && (uint64(c.Slot())%spe == 1 || uint64(c.Slot())%spe == 3) && rng.Intn(3) == 0 {
+				if err := depositTree(2 + treesDone); err != nil {
+					return err
+				}
+				treesDone++
+			}
 			if i == 2 || rng.Intn(12) == 0 {
 				retain(map[bool]string{true: "early", false: "random-point"}[i == 2])
 			}
@@ -360,7 +481,7 @@ func gen(o hreg.Opts, w *bufio.Writer) error {
 			}
 			if boundary {
 				recheckAll("after-live-epoch-boundary")
-			} else if rng.Intn(10) == 0 {
+			} else if rng.Intn(25) == 0 {
 				recheckAll("random-point")
 			}
 			if interesting != "" && rng.Intn(2) == 0 {
@@ -598,6 +719,38 @@ func exec(o hreg.Opts, r *bufio.Scanner, w *bufio.Writer) error {
 					return "bad-op"
 				}
 				if err := common.ProcessSlots(ctx, s.spec, k.epc, k.st, common.Slot(to)); err != nil {
+					return "err"
+				}
+				return k.report(s.spec)
+			case "clone":
+				if s == nil || len(rest) != 0 {
+					return "bad-op"
+				}
+				k := s.findKept(kv["x_r"])
+				if k == nil {
+					return "bad-op"
+				}
+				s.kept = append(s.kept, &keptPair{st: chain.WrapState(k.st), epc: k.epc.Clone(), root: k.root})
+				return "ok"
+			case "xdeposit":
+				if s == nil || len(rest) != 0 || kv["x_root"] == "" {
+					return "bad-op"
+				}
+				k := s.findKept(kv["x_r"])
+				pkb, e1 := hex.DecodeString(kv["x_pk"])
+				wcb, e2 := hex.DecodeString(kv["x_wc"])
+				amount, e3 := strconv.ParseUint(kv["x_amount"], 10, 64)
+				if k == nil || e1 != nil || e2 != nil || e3 != nil || len(pkb) != 48 || len(wcb) != 32 {
+					return "bad-op"
+				}
+				if _, err := flat.Parse(kv); err != nil {
+					return "bad-op"
+				}
+				var pk common.BLSPubkey
+				var wc common.Root
+				copy(pk[:], pkb)
+				copy(wc[:], wcb)
+				if err := directDeposit(s.spec, k.epc, k.st, pk, wc, common.Gwei(amount)); err != nil {
 					return "err"
 				}
 				return k.report(s.spec)
